@@ -329,30 +329,52 @@ class Client:
     def __parse_error(self, text: bytes):
         """Parse an error received from the server.
 
-        if text corresponds to a size indication, we grab the
-        remaining content from the server.
-
-        Otherwise, we try to match an error of the form \(\w+\)?\s*".+"
+        The text that follows NO is made of an optional response code
+        between parenthesis and of an optional human readable string,
+        either quoted or sent as a literal (in which case we grab the
+        remaining content from the server).
 
         On succes, the two public members errcode and errmsg are
         filled with the parsing results.
 
         :param text: the response to parse
         """
-        m = self.__size_expr.match(text)
-        if m is not None:
-            self.errcode = b""
-            self.errmsg = self.__read_block(int(m.group(1)) + 2)
+        self.errcode = b""
+        self.errmsg = b""
+        text = (text or b"").strip()
+        if text.startswith(b"("):
+            # find the closing parenthesis (response code parameters
+            # may be quoted strings)
+            pos, inquote, end = 1, False, -1
+            while pos < len(text):
+                char = text[pos : pos + 1]
+                if inquote:
+                    if char == b"\\":
+                        pos += 1
+                    elif char == b'"':
+                        inquote = False
+                elif char == b'"':
+                    inquote = True
+                elif char == b")":
+                    end = pos
+                    break
+                pos += 1
+            if end == -1:
+                raise Error("Bad error message")
+            self.errcode = text[1:end]
+            text = text[end + 1 :].strip()
+        if not text:
             return
 
-        m = self.__error_expr.match(text)
-        if m is None:
+        m = self.__size_expr.fullmatch(text)
+        if m is not None:
+            size = int(m.group(1))
+            self.errmsg = self.__read_block(size + len(CRLF))[:size]
+            return
+
+        if len(text) < 2 or not text.startswith(b'"') or not text.endswith(b'"'):
             raise Error("Bad error message")
-        if m.group(1) is not None:
-            self.errcode = m.group(1).strip(b"()")
-        else:
-            self.errcode = b""
-        self.errmsg = m.group(2).strip(b'"')
+        self.errmsg = re.sub(rb"\\(.)", rb"\1", text[1:-1])
 
     def _plain_authentication(
         self, login: bytes, password: bytes, authz_id: bytes = b""
